@@ -43,6 +43,9 @@ Plate.vos Plate.vok Plate.required_vos: Plate.v Base.vos Units.vos Contents.vos 
 Prog.vo Prog.glob Prog.v.beautified Prog.required_vo: Prog.v Base.vo Units.vo Contents.vo Container.vo Plate.vo Dilute.vo Solve.vo
 Prog.vio: Prog.v Base.vio Units.vio Contents.vio Container.vio Plate.vio Dilute.vio Solve.vio
 Prog.vos Prog.vok Prog.required_vos: Prog.v Base.vos Units.vos Contents.vos Container.vos Plate.vos Dilute.vos Solve.vos
+Instr.vo Instr.glob Instr.v.beautified Instr.required_vo: Instr.v Base.vo Units.vo UnitsThm.vo Contents.vo Container.vo
+Instr.vio: Instr.v Base.vio Units.vio UnitsThm.vio Contents.vio Container.vio
+Instr.vos Instr.vok Instr.required_vos: Instr.v Base.vos Units.vos UnitsThm.vos Contents.vos Container.vos
 ConfigThm.vo ConfigThm.glob ConfigThm.v.beautified ConfigThm.required_vo: ConfigThm.v Base.vo Units.vo UnitsThm.vo Contents.vo Container.vo ContainerThm.vo ContainerThm2.vo Plate.vo
 ConfigThm.vio: ConfigThm.v Base.vio Units.vio UnitsThm.vio Contents.vio Container.vio ContainerThm.vio ContainerThm2.vio Plate.vio
 ConfigThm.vos ConfigThm.vok ConfigThm.required_vos: ConfigThm.v Base.vos Units.vos UnitsThm.vos Contents.vos Container.vos ContainerThm.vos ContainerThm2.vos Plate.vos
@@ -127,6 +130,9 @@ Props/C17.vos Props/C17.vok Props/C17.required_vos: Props/C17.v Base.vos Units.v
 Props/C18.vo Props/C18.glob Props/C18.v.beautified Props/C18.required_vo: Props/C18.v Base.vo Units.vo UnitsThm.vo Contents.vo Container.vo ContainerThm.vo ContainerThm2.vo Plate.vo ConfigThm.vo
 Props/C18.vio: Props/C18.v Base.vio Units.vio UnitsThm.vio Contents.vio Container.vio ContainerThm.vio ContainerThm2.vio Plate.vio ConfigThm.vio
 Props/C18.vos Props/C18.vok Props/C18.required_vos: Props/C18.v Base.vos Units.vos UnitsThm.vos Contents.vos Container.vos ContainerThm.vos ContainerThm2.vos Plate.vos ConfigThm.vos
+Props/C19.vo Props/C19.glob Props/C19.v.beautified Props/C19.required_vo: Props/C19.v Base.vo Units.vo UnitsThm.vo Contents.vo Container.vo Instr.vo
+Props/C19.vio: Props/C19.v Base.vio Units.vio UnitsThm.vio Contents.vio Container.vio Instr.vio
+Props/C19.vos Props/C19.vok Props/C19.required_vos: Props/C19.v Base.vos Units.vos UnitsThm.vos Contents.vos Container.vos Instr.vos
 Props/C13.vo Props/C13.glob Props/C13.v.beautified Props/C13.required_vo: Props/C13.v Base.vo Plate.vo Slicer.vo SlicerThm.vo
 Props/C13.vio: Props/C13.v Base.vio Plate.vio Slicer.vio SlicerThm.vio
 Props/C13.vos Props/C13.vok Props/C13.required_vos: Props/C13.v Base.vos Plate.vos Slicer.vos SlicerThm.vos
